@@ -60,6 +60,15 @@ def _schema(template, version):
 
 def configure(cfg):
     CFG.update(cfg)
+    if CFG["template"] == "childdef":
+        _cd_schema(CFG["kind"], CFG["version"])
+        return
+    if CFG["template"] == "xsitype2":
+        key = ("xsitype2", CFG["version"])
+        if key not in _S:
+            cls = xmlschema.XMLSchema10 if CFG["version"] == "1.0" else xmlschema.XMLSchema11
+            _S[key] = cls(_XT2_XSD)
+        return
     if CFG["template"] == "xsitype":
         key = ("xsitype", CFG["version"])
         if key not in _S:
@@ -238,6 +247,84 @@ def h_xsitype_key(**kw) -> bool:
     return (not errors) == want
 
 
+# ------------------------------------------------------------------ fields that are child elements with a default value
+_CD_XSD = """<xs:schema xmlns:xs="http://www.w3.org/2001/XMLSchema"><xs:element name="r"><xs:complexType><xs:sequence>
+ <xs:element name="i" minOccurs="0" maxOccurs="unbounded"><xs:complexType><xs:sequence>
+    <xs:element name="code" type="xs:decimal" default="7" minOccurs="0"/></xs:sequence></xs:complexType></xs:element>
+ </xs:sequence></xs:complexType>
+ <xs:%s name="C"><xs:selector xpath="i"/><xs:field xpath="code"/></xs:%s></xs:element></xs:schema>"""
+CD_POOL = [None, "", "7", "7.0", "1"]          # child absent / present and empty (takes the default 7) / explicit values
+
+
+def _cd_schema(kind, version):
+    key = ("childdef", kind, version)
+    if key not in _S:
+        cls = xmlschema.XMLSchema10 if version == "1.0" else xmlschema.XMLSchema11
+        _S[key] = cls(_CD_XSD % (kind, kind))
+    return _S[key]
+
+
+def pre_cd(fn, c0, c1):
+    return 0 <= c0 < len(CD_POOL) and 0 <= c1 < len(CD_POOL)
+
+
+def h_child_default(c0: int, c1: int) -> bool:
+    """the field is an optional child element with a default: an ABSENT child gives no field value (the default applies to
+    present-and-empty elements only, Structures 3.3.4 "Element Default Value")"""
+    kind = CFG["kind"]
+    s = _cd_schema(kind, CFG["version"])
+    root = ET.Element('r')
+    vals = []
+    for c in (CD_POOL[pick(c0, len(CD_POOL))], CD_POOL[pick(c1, len(CD_POOL))]):
+        i = ET.SubElement(root, 'i')
+        if c is not None:
+            ET.SubElement(i, 'code').text = c
+        vals.append((None if c is None else Decimal(c or "7"),))
+    errors = list(s.iter_errors(root))
+    return (not errors) == ref_table(kind, vals)
+
+
+# ------------------------------------------------------------------ one declaration, two constraint scopes, xsi:type in both
+_XT2_XSD = """<xs:schema xmlns:xs="http://www.w3.org/2001/XMLSchema">
+ <xs:complexType name="T0"><xs:sequence/></xs:complexType>
+ <xs:complexType name="T1"><xs:complexContent><xs:extension base="T0"><xs:sequence>
+   <xs:element name="sub" minOccurs="0" maxOccurs="unbounded"><xs:complexType><xs:attribute name="a" type="xs:decimal"/></xs:complexType></xs:element>
+ </xs:sequence></xs:extension></xs:complexContent></xs:complexType>
+ <xs:element name="g" type="T0"/>
+ <xs:element name="r"><xs:complexType><xs:sequence>
+   <xs:element name="A" minOccurs="0"><xs:complexType><xs:sequence><xs:element ref="g" maxOccurs="unbounded"/></xs:sequence></xs:complexType>
+      <xs:key name="KA"><xs:selector xpath="g/sub"/><xs:field xpath="@a"/></xs:key></xs:element>
+   <xs:element name="B" minOccurs="0"><xs:complexType><xs:sequence><xs:element ref="g" maxOccurs="unbounded"/></xs:sequence></xs:complexType>
+      <xs:key name="KB"><xs:selector xpath="g/sub"/><xs:field xpath="@a"/></xs:key></xs:element>
+ </xs:sequence></xs:complexType></xs:element></xs:schema>"""
+
+
+XT2_POOL = [None, "1", "2", "1.0"]          # the first three admit valid tables (1, 2), duplicates (1, 1) and missing fields
+
+
+def pre_xt2(fn, **kw):
+    return all(0 <= v < CFG.get("apool", len(XT2_POOL)) for v in kw.values())
+
+
+def h_xsitype_two_scopes(**kw) -> bool:
+    """the same global element, substituted through xsi:type, under two parents with their own keys: each scope is enforced"""
+    key = ("xsitype2", CFG["version"])
+    if key not in _S:
+        raise RuntimeError("schema not built")
+    root = ET.Element('r')
+    rows = {}
+    for scope in ("A", "B"):
+        p = ET.SubElement(root, scope)
+        g = ET.SubElement(p, 'g', {'{%s}type' % XSI_NS: 'T1'})
+        rows[scope] = []
+        for j in (0, 1):
+            a = XT2_POOL[pick(kw["a%s%d" % (scope, j)], len(XT2_POOL))]
+            ET.SubElement(g, 'sub', {} if a is None else {'a': a})
+            rows[scope].append((_val_a(a),))
+    errors = list(_S[key].iter_errors(root))
+    return (not errors) == (ref_table("key", rows["A"]) and ref_table("key", rows["B"]))
+
+
 def explain(fn, args):
     return "template=%s version=%s args=%r" % (CFG["template"], CFG["version"], args)
 
@@ -287,6 +374,14 @@ def obligations(tier, seed):
         out.append({"name": "xsitype-key/%s" % version, "fn": "h_xsitype_key", "pre": "pre_xt", "args": [["ax0", "int"], ["ax1", "int"]],
                     "config": {"template": "xsitype", "version": version}, "timeout": 400, "twin_timeout": 30,
                     "bound": "two key-selected elements inside xsi:type'd content, field from %r" % (A_POOL,)})
+        for kind in ("key", "unique"):
+            out.append({"name": "child-default/%s/%s" % (version, kind), "fn": "h_child_default", "pre": "pre_cd", "args": [["c0", "int"], ["c1", "int"]],
+                        "config": {"template": "childdef", "kind": kind, "version": version}, "timeout": 300, "twin_timeout": 30,
+                        "bound": "two selected nodes whose field is an optional child with a default: child from %r" % (CD_POOL,)})
+        out.append({"name": "xsitype-two-scopes/%s" % version, "fn": "h_xsitype_two_scopes", "pre": "pre_xt2",
+                    "args": [["aA0", "int"], ["aA1", "int"], ["aB0", "int"], ["aB1", "int"]],
+                    "config": {"template": "xsitype2", "version": version, "apool": 3 if quick else len(XT2_POOL)}, "timeout": 600 if quick else 3000, "twin_timeout": 30,
+                    "bound": "a global element under two parents with their own keys, xsi:type'd content with 2 selected nodes each, field from %r" % (XT2_POOL[:3 if quick else len(XT2_POOL)],)})
         out.append({"name": "idref/%s" % version, "fn": "h_idref", "pre": "pre_rows",
                     "args": [["id%d" % k, "int"] for k in range(2 if quick else 3)] + [["rf%d" % k, "int"] for k in range(2 if quick else 3)],
                     "config": {"template": "idref", "version": version}, "timeout": 500 if quick else 3000, "twin_timeout": 30,
